@@ -630,11 +630,21 @@ func (p *Parser) parseSwitch() ast.Node {
 			isDefaultCase = true
 		} else if p.curTokenIs(token.CASE) {
 			p.nextToken() // move to the token following "case"
-			caseExprs = append(caseExprs, p.parseExpression(LOWEST))
+			caseExpr := p.parseExpression(LOWEST)
+			if caseExpr == nil {
+				p.setTokenError(p.curToken, "invalid syntax in case expression")
+				return nil
+			}
+			caseExprs = append(caseExprs, caseExpr)
 			for p.peekTokenIs(token.COMMA) {
 				p.nextToken() // move to the comma
 				p.nextToken() // move to the following expression
-				caseExprs = append(caseExprs, p.parseExpression(LOWEST))
+				caseExpr := p.parseExpression(LOWEST)
+				if caseExpr == nil {
+					p.setTokenError(p.curToken, "invalid syntax in case expression")
+					return nil
+				}
+				caseExprs = append(caseExprs, caseExpr)
 			}
 		} else {
 			p.setTokenError(p.curToken, "expected 'case' or 'default' (got %s)", p.curToken.Literal)
@@ -1033,6 +1043,12 @@ func (p *Parser) parseTernary(conditionNode ast.Node) ast.Node {
 func (p *Parser) parseGroupedExpr() ast.Node {
 	p.nextToken()
 	exp := p.parseExpression(LOWEST)
+	if exp == nil {
+		if p.err == nil {
+			p.setTokenError(p.curToken, "invalid syntax in grouped expression")
+		}
+		return nil
+	}
 	if !p.expectPeek("grouped expression", token.RPAREN) {
 		return nil
 	}
@@ -1426,7 +1442,18 @@ func (p *Parser) parseExprList(end token.Type) []ast.Expression {
 		if err := p.nextToken(); err != nil {
 			return nil
 		}
-		list = append(list, p.parseExpression(LOWEST))
+		expr := p.parseExpression(LOWEST)
+		if expr == nil {
+			if p.err != nil {
+				return nil
+			}
+			if !p.curTokenIs(token.EOF) {
+				p.setTokenError(p.curToken, "invalid syntax in list expression")
+				return nil
+			}
+			break // the end of the input is reported below
+		}
+		list = append(list, expr)
 	}
 	for p.peekTokenIs(token.NEWLINE) {
 		if err := p.nextToken(); err != nil {
@@ -1476,7 +1503,18 @@ func (p *Parser) parseNodeList(end token.Type) []ast.Node {
 		if err := p.nextToken(); err != nil {
 			return nil
 		}
-		list = append(list, p.parseNode(LOWEST))
+		node := p.parseNode(LOWEST)
+		if node == nil {
+			if p.err != nil {
+				return nil
+			}
+			if !p.curTokenIs(token.EOF) {
+				p.setTokenError(p.curToken, "invalid syntax in list expression")
+				return nil
+			}
+			break // the end of the input is reported below
+		}
+		list = append(list, node)
 	}
 	for p.peekTokenIs(token.NEWLINE) {
 		if err := p.nextToken(); err != nil {
